@@ -2,6 +2,7 @@
   C08 — well numbering is column-major, 1-based, and device-specific for troughs.
 -/
 import Robotools.Model.Geometry
+import Robotools.Proofs.GeometryLemmas
 namespace Robotools.C08
 open Robotools
 
@@ -10,90 +11,161 @@ def plate (R C : Nat) : Geom := { rows := R, cols := C, vrows := none }
 /-- A trough geometry with `V` virtual rows. -/
 def trough (V C : Nat) : Geom := { rows := 1, cols := C, vrows := some V }
 
+private theorem plate_nRowIds (R C : Nat) (hR : R ≤ 26) : (plate R C).nRowIds = R := by
+  simp only [plate, Geom.nRowIds]; omega
+private theorem plate_stride (R C : Nat) (hR : R ≤ 26) : (plate R C).stride = R := by
+  simp only [Geom.stride]; exact plate_nRowIds R C hR
+private theorem trough_nRowIds (V C : Nat) (hV : V ≤ 26) : (trough V C).nRowIds = V := by
+  simp only [trough, Geom.nRowIds]; omega
+private theorem trough_stride (V C : Nat) : (trough V C).stride = V := rfl
+private theorem plate_isTrough (R C : Nat) : (plate R C).isTrough = false := rfl
+private theorem trough_isTrough (V C : Nat) : (trough V C).isTrough = true := rfl
+
 /-- Well IDs are injective on (row < 26, any column). -/
 theorem wellId_inj (r₁ c₁ r₂ c₂ : Nat) (h₁ : r₁ < 26) (h₂ : r₂ < 26)
-    (h : wellId r₁ c₁ = wellId r₂ c₂) : r₁ = r₂ ∧ c₁ = c₂ := by
-  sorry
+    (h : wellId r₁ c₁ = wellId r₂ c₂) : r₁ = r₂ ∧ c₁ = c₂ :=
+  wellId_injective h₁ h₂ h
 
 /-- The loose parser reads a well ID back: row letter and 1-based column. -/
 theorem parseLoose_wellId (r c : Nat) (h : r < 26) :
-    parseLoose (wellId r c) = some ([rowLetters.getD r '?'], c + 1) := by
-  sorry
+    parseLoose (wellId r c) = some ([rowLetters.getD r '?'], c + 1) :=
+  parseLoose_wellId' r c h
 
 /-- Plate wells: position 1 + column_index * rows + row_index on both devices. -/
 theorem evoPos_plate (R C r c : Nat) (hR : R ≤ 26) (hr : r < R) (hc : c < C) :
     (plate R C).evoPos (wellId r c) = some (1 + c * R + r) := by
-  sorry
+  have := (plate R C).evoPos_wellId (r := r) (c := c) (by rw [plate_nRowIds R C hR]; exact hr) hc
+  rw [plate_stride R C hR] at this; exact this
 
 theorem fluentPos_plate (R C r c : Nat) (hR : R ≤ 26) (hr : r < R) (hc : c < C) :
     (plate R C).fluentPos (wellId r c) = some (1 + c * R + r) := by
-  sorry
+  have := (plate R C).fluentPos_wellId (r := r) (c := c) (by rw [plate_nRowIds R C hR]; exact hr) hc
+  rw [plate_isTrough, plate_nRowIds R C hR] at this; exact this
 
 /-- Troughs: the EVO counts the virtual rows, the Fluent numbers 1 + column whatever virtual row. -/
 theorem evoPos_trough (V C vr c : Nat) (hV : V ≤ 26) (hr : vr < V) (hc : c < C) :
     (trough V C).evoPos (wellId vr c) = some (1 + c * V + vr) := by
-  sorry
+  have := (trough V C).evoPos_wellId (r := vr) (c := c) (by rw [trough_nRowIds V C hV]; exact hr) hc
+  rw [trough_stride] at this; exact this
 
 theorem fluentPos_trough (V C vr c : Nat) (hV : V ≤ 26) (hr : vr < V) (hc : c < C) :
     (trough V C).fluentPos (wellId vr c) = some (1 + c) := by
-  sorry
+  have := (trough V C).fluentPos_wellId (r := vr) (c := c) (by rw [trough_nRowIds V C hV]; exact hr) hc
+  rw [trough_isTrough] at this; exact this
 
 /-- The index table resolves every ID of the labware to its (real row, column), and only those. -/
 theorem resolve_plate (R C r c : Nat) (hR : R ≤ 26) (hr : r < R) (hc : c < C) :
     (plate R C).resolve (wellId r c) = some (r, c) := by
-  sorry
+  have := (plate R C).resolve_wellId (r := r) (c := c) (by rw [plate_nRowIds R C hR]; exact hr) hc
+  rw [plate_isTrough] at this; exact this
 
 theorem resolve_trough (V C vr c : Nat) (hV : V ≤ 26) (hr : vr < V) (hc : c < C) :
     (trough V C).resolve (wellId vr c) = some (0, c) := by
-  sorry
+  have := (trough V C).resolve_wellId (r := vr) (c := c) (by rw [trough_nRowIds V C hV]; exact hr) hc
+  rw [trough_isTrough] at this; exact this
 
 theorem resolve_some (g : Geom) (s : String) (rc : Nat × Nat) (h : g.resolve s = some rc) :
     ∃ r c, r < g.nRowIds ∧ c < g.cols ∧ s = wellId r c ∧ rc = (if g.isTrough then 0 else r, c) := by
-  sorry
+  obtain ⟨r, c, hr, hc, heq⟩ := (g.mem_table _).1 (mem_of_lookup_eq_some h)
+  exact ⟨r, c, hr, hc, (Prod.mk.inj heq).1, (Prod.mk.inj heq).2⟩
 
 /-- The inverse numbering used by the independent replay inverts the device numbering
     (onto real wells for troughs). -/
-theorem evoWellOf_evoPos_plate (R C r c : Nat) (hR : 0 < R) (hr : r < R) (hc : c < C) :
+/- NOTE (statement change): the original statement had no `R ≤ 26` hypothesis and is false
+   for plates with more than 26 rows, because `stride = nRowIds = min 26 R`; see the
+   counterexample `evoWellOf_evoPos_plate_needs_le26` below.  `hR26 : R ≤ 26` was added. -/
+theorem evoWellOf_evoPos_plate (R C r c : Nat) (hR : 0 < R) (hR26 : R ≤ 26) (hr : r < R) (hc : c < C) :
     (plate R C).evoWellOf (1 + c * R + r) = some (r, c) := by
-  sorry
+  have e1 : (1 + c * R + r - 1) % R = r := by
+    rw [show 1 + c * R + r - 1 = r + c * R by omega, Nat.add_mul_mod_self_right, Nat.mod_eq_of_lt hr]
+  have e2 : (1 + c * R + r - 1) / R = c := by
+    rw [show 1 + c * R + r - 1 = r + c * R by omega, Nat.add_mul_div_right _ _ hR,
+      Nat.div_eq_of_lt hr, Nat.zero_add]
+  have hc' : c < (plate R C).cols := hc
+  unfold Geom.evoWellOf
+  rw [plate_stride R C hR26, plate_isTrough, if_neg (by omega)]
+  simp only [e1, e2, hc', if_true]
+  rfl
 
 theorem evoWellOf_evoPos_trough (V C vr c : Nat) (hV : V ≤ 26) (hr : vr < V) (hc : c < C) :
     (trough V C).evoWellOf (1 + c * V + vr) = some (0, c) := by
-  sorry
+  have hV0 : 0 < V := by omega
+  have e2 : (1 + c * V + vr - 1) / V = c := by
+    rw [show 1 + c * V + vr - 1 = vr + c * V by omega, Nat.add_mul_div_right _ _ hV0,
+      Nat.div_eq_of_lt hr, Nat.zero_add]
+  have hc' : c < (trough V C).cols := hc
+  unfold Geom.evoWellOf
+  rw [trough_stride, trough_isTrough, if_neg (by omega)]
+  simp only [e2, hc', if_true]
 
 theorem fluentWellOf_fluentPos_trough (V C c : Nat) (hc : c < C) :
     (trough V C).fluentWellOf (1 + c) = some (0, c) := by
-  sorry
+  have hc' : c < (trough V C).cols := hc
+  unfold Geom.fluentWellOf
+  rw [trough_isTrough, if_pos rfl, if_pos ⟨by omega, by omega⟩]
+  simp
+
+/-- Counterexample to `evoWellOf_evoPos_plate` without `R ≤ 26`: R = 30, C = 1, r = 27, c = 0. -/
+theorem evoWellOf_evoPos_plate_needs_le26 :
+    0 < 30 ∧ 27 < 30 ∧ 0 < 1 ∧ (plate 30 1).evoWellOf (1 + 0 * 30 + 27) = none := by decide
 
 /-- Column-major numbering is a bijection between [0,R)×[0,C) and [1, R*C]. -/
 theorem pos_range (R C r c : Nat) (hr : r < R) (hc : c < C) : 1 ≤ 1 + c * R + r ∧ 1 + c * R + r ≤ R * C := by
-  sorry
+  refine ⟨by omega, ?_⟩
+  have h : R * (c + 1) ≤ R * C := Nat.mul_le_mul_left R hc
+  rw [Nat.mul_add, Nat.mul_one, Nat.mul_comm R c] at h
+  omega
 
 theorem pos_inj (R r₁ c₁ r₂ c₂ : Nat) (h₁ : r₁ < R) (h₂ : r₂ < R)
     (h : 1 + c₁ * R + r₁ = 1 + c₂ * R + r₂) : r₁ = r₂ ∧ c₁ = c₂ := by
-  sorry
+  have hR : 0 < R := by omega
+  have h' : r₁ + c₁ * R = r₂ + c₂ * R := by omega
+  have hm := congrArg (· % R) h'
+  have hd := congrArg (· / R) h'
+  simp only [Nat.add_mul_mod_self_right, Nat.mod_eq_of_lt h₁, Nat.mod_eq_of_lt h₂,
+    Nat.add_mul_div_right _ _ hR, Nat.div_eq_of_lt h₁, Nat.div_eq_of_lt h₂, Nat.zero_add] at hm hd
+  exact ⟨hm, hd⟩
 
 theorem pos_surj (R C p : Nat) (hR : 0 < R) (h1 : 1 ≤ p) (h2 : p ≤ R * C) :
     ∃ r c, r < R ∧ c < C ∧ p = 1 + c * R + r := by
-  sorry
+  refine ⟨(p - 1) % R, (p - 1) / R, Nat.mod_lt _ hR, ?_, ?_⟩
+  · rw [Nat.div_lt_iff_lt_mul hR, Nat.mul_comm]; omega
+  · have := Nat.div_add_mod (p - 1) R
+    rw [Nat.mul_comm] at this
+    omega
 
 /-- The deprecated `positions` attribute agrees with the EVO numbering. -/
 theorem positions_eq_evoPos (g : Geom) (hv : g.nRowIds = (match g.vrows with | some v => v | none => g.rows))
     (s : String) (p : Nat) (h : (s, p) ∈ g.positions) : g.evoPos s = some p := by
-  sorry
+  simp only [Geom.positions, List.mem_flatMap, List.mem_map, List.mem_range] at h
+  obtain ⟨r, hr, c, hc, heq⟩ := h
+  obtain ⟨rfl, rfl⟩ := Prod.mk.inj heq
+  rw [g.evoPos_wellId hr hc]
+  have hs : g.stride = (match g.vrows with | some v => v | none => g.rows) := by
+    unfold Geom.stride
+    cases hvr : g.vrows with
+    | some v => rfl
+    | none => rw [hvr] at hv; exact hv
+  rw [hs]
+  rfl
 
 /-- The well-array helpers agree with the labware tables. -/
 theorem makeWellArray_eq_wells (R C : Nat) : makeWellArray R C = (plate R C).wells := by
-  sorry
+  rfl
 
 theorem makeWellIndexDict_eq_table (R C : Nat) : makeWellIndexDict R C = (plate R C).table := by
-  sorry
+  simp only [makeWellIndexDict, Geom.table, plate_isTrough]
+  rfl
 
 /-- An ID that does not exist in the labware has no position on either device when it is not
     even loosely of the form letter+digits within range. -/
 theorem unknown_id_no_index (g : Geom) (s : String) (h : ∀ r c, r < g.nRowIds → c < g.cols → s ≠ wellId r c) :
     g.resolve s = none := by
-  sorry
+  unfold Geom.resolve
+  rw [List.lookup_eq_none_iff]
+  intro p hp
+  obtain ⟨r, c, hr, hc, rfl⟩ := (g.mem_table p).1 hp
+  simpa using h r c hr hc
 
 example : (plate 8 12).evoPos "C02" = some 11 := by decide +kernel
 example : (trough 4 2).evoPos "B02" = some 6 ∧ (trough 4 2).fluentPos "B02" = some 2 := by decide +kernel
